@@ -241,6 +241,88 @@ theorem C03_guards (R : Addr) (blocked : Addr → Bool) (s : St) (a b : Addr) (u
   · intro h; simp [mint, h]
   · intro h; simp [burn, h]
 
+/-! ### Every reachable state -/
+
+/-- the five calls of the extended bank interface -/
+inductive Op where
+  | send (frm to : Addr) (u x : Int)
+  | m2a (frm to : Addr) (u x : Int)
+  | a2m (frm to : Addr) (u x : Int)
+  | mint (m : Addr) (perm : Bool) (u x : Int)
+  | burn (m : Addr) (perm : Bool) (u x : Int)
+
+def Op.run (R : Addr) (blocked : Addr → Bool) (s : St) : Op → Res
+  | .send f t u x => KV.PB.send R s f t u x
+  | .m2a f t u x => sendModuleToAccount R blocked s f t u x
+  | .a2m f t u x => sendAccountToModule R s f t u x
+  | .mint m p u x => KV.PB.mint R s m p u x
+  | .burn m p u x => KV.PB.burn R s m p u x
+
+/-- well-formed call: parties are known accounts, amounts are non-negative (sdk.Coins are) -/
+def Op.wf (accts : List Addr) : Op → Prop
+  | .send f t u x | .m2a f t u x | .a2m f t u x => f ∈ accts ∧ t ∈ accts ∧ 0 ≤ u ∧ 0 ≤ x
+  | .mint m _ u x | .burn m _ u x => m ∈ accts ∧ 0 ≤ u ∧ 0 ≤ x
+
+/-- what baseapp leaves behind: the new state on success, the old state on error or panic -/
+def Op.step (R : Addr) (blocked : Addr → Bool) (s : St) (op : Op) : St :=
+  match op.run R blocked s with
+  | .ok s' => s'
+  | _ => s
+
+theorem C03_inv_send_any (accts : List Addr) (hn : accts.Nodup) (R : Addr) (s s' : St) (frm to : Addr)
+    (u x : Int) (hf : frm ∈ accts) (ht : to ∈ accts)
+    (h : Inv accts R s) (hok : send R s frm to u x = .ok s') : Inv accts R s' := by
+  by_cases hR : frm = R ∨ to = R
+  · unfold send at hok; simp only [hR, ite_true] at hok; cases hok
+  · have hfR : frm ≠ R := fun e => hR (Or.inl e)
+    have htR : to ≠ R := fun e => hR (Or.inr e)
+    exact C03_inv_send accts hn R s s' frm to u x hfR htR hf ht h hok
+
+theorem C03_inv_step (accts : List Addr) (hn : accts.Nodup) (R : Addr) (blocked : Addr → Bool) (s : St) (op : Op)
+    (hwf : op.wf accts) (h : Inv accts R s) : Inv accts R (op.step R blocked s) := by
+  unfold Op.step
+  split
+  · rename_i s' hrun
+    cases op with
+    | send f t u x =>
+      obtain ⟨hf, ht, hu, hx⟩ := hwf
+      exact C03_inv_send_any accts hn R s s' f t u x hf ht h hrun
+    | m2a f t u x =>
+      obtain ⟨hf, ht, hu, hx⟩ := hwf
+      simp only [Op.run, sendModuleToAccount] at hrun
+      split at hrun
+      · cases hrun
+      · split at hrun
+        · cases hrun
+        · exact C03_inv_send_any accts hn R s s' f t u x hf ht h hrun
+    | a2m f t u x =>
+      obtain ⟨hf, ht, hu, hx⟩ := hwf
+      simp only [Op.run, sendAccountToModule] at hrun
+      split at hrun
+      · cases hrun
+      · exact C03_inv_send_any accts hn R s s' f t u x hf ht h hrun
+    | mint m p u x =>
+      obtain ⟨hm, hu, hx⟩ := hwf
+      exact C03_inv_mint accts hn R s s' m p u x hm hx h hrun
+    | burn m p u x =>
+      obtain ⟨hm, hu, hx⟩ := hwf
+      exact C03_inv_burn accts hn R s s' m p u x hm hx h hrun
+  · exact h
+
+/-- **Every reachable state satisfies the invariant**: from any state satisfying it (genesis does),
+    after any sequence of well-formed calls — successful, failed or panicking, in any order, by any
+    parties — each fractional balance and the remainder are in `[0, C)` and the reserve backs them exactly. -/
+theorem C03_reachable_inv (accts : List Addr) (hn : accts.Nodup) (R : Addr) (blocked : Addr → Bool)
+    (ops : List Op) (s0 : St) (hwf : ∀ op ∈ ops, op.wf accts) (h0 : Inv accts R s0) :
+    Inv accts R (ops.foldl (Op.step R blocked) s0) := by
+  induction ops generalizing s0 with
+  | nil => exact h0
+  | cons op ops ih =>
+    simp only [List.foldl_cons]
+    apply ih
+    · intro o ho; exact hwf o (List.mem_cons_of_mem _ ho)
+    · exact C03_inv_step accts hn R blocked s0 op (hwf op (List.mem_cons_self ..)) h0
+
 /-! Non-vacuity: a concrete state (non-zero remainder, three fractional balances) satisfying `Inv`
     on which a borrowing+carrying transfer, a mint and a burn all succeed. -/
 def exSt : St :=
@@ -257,5 +339,6 @@ example : (send 0 exSt 2 1 0 1500000000000).isOk = true := by decide
 example : (send 0 exSt 3 1 0 1).isOk = true := by decide
 example : (mint 0 exSt 1 true 0 700000000000).isOk = true := by decide
 example : (burn 0 exSt 2 true 0 700000000000).isOk = true := by decide
+example : (Op.send 2 1 0 1500000000000).wf [1, 2, 3] := by simp [Op.wf]
 
 end KV.PB
